@@ -864,8 +864,10 @@ impl Live {
         format!(
             "tui new {} {} {} {} {} {} {}",
             self.app.trace_info.len(),
-            opt(self.app.tui_config.privacy_max_ttl),
-            opt(self.app.tui_config.max_addrs),
+            // what was *configured* (the application's `TrippyConfig`), not what the frontend ended up with: the model
+            // starts from the configuration, so a value lost or swapped on the way to `TuiConfig` shows as a difference
+            opt(self.setup.privacy),
+            opt(self.setup.max_addrs),
             declared.join(","),
             actual.join(","),
             show_columns(&self.app),
@@ -1154,6 +1156,13 @@ struct Tally {
 /// Execute `ops` on a fresh app, emitting request/answer lines and applying the oracles.
 fn run_case(run: &mut Run, ctx: &Ctx, tally: &mut Tally, setup: &Setup, ops: &[Op], label: &str) {
     let mut live = new_live(ctx, setup);
+    // C18: a privacy TTL configured at start-up (command line / file) is in force from the first frame
+    if live.app.tui_config.privacy_max_ttl != live.setup.privacy {
+        run.fail("c18-configured-privacy-not-in-force", format!("{}: tui-privacy-max-ttl {:?} was configured, the frontend runs with {:?} (tui-max-addrs configured {:?}, in force {:?})",
+            live.new_request(), live.setup.privacy, live.app.tui_config.privacy_max_ttl, live.setup.max_addrs, live.app.tui_config.max_addrs));
+    } else if live.app.tui_config.max_addrs != live.setup.max_addrs {
+        run.fail("c16-tui-option-lost", format!("{}: tui-max-addrs {:?} was configured, the frontend runs with {:?}", live.new_request(), live.setup.max_addrs, live.app.tui_config.max_addrs));
+    }
     run.op(live.new_request(), show_app(&live.app, 0));
     for k in 0..setup.traces.len() {
         run.op(format!("tui data {k} {}", shape_of(&live.app.trace_info[k].data.snapshot())), show_app(&live.app, 0));
